@@ -13,7 +13,7 @@ from vf import pool_checks
 PROP = "C05"
 LEVEL = "exploration"
 RULE = ("base cases: FunctorMap with workers 1-5 and 1-4 fully consumed calls (lengths 0, 1, <workers, up to 60; chunk "
-        "sizes 1-9; list/generator/slow inputs) or 1-3 mul_p_map calls in one process (workers 1-5, lengths 0-40); "
+        "sizes 1-9; list/generator/slow inputs; results of 16 bytes or of 70-200 kB each, i.e. larger than the result pipe) or 1-3 mul_p_map calls in one process (workers 1-5, lengths 0-40); "
         "per-item functor delays that make each chunk in turn the slowest, reverse the arrival order or alternate. Each "
         "base case: dry run, one run per (executed statement, occurrence) with a 120 ms delay in parent and worker "
         "code, random 2-3 delay combinations, forced GIL hand-offs. Oracles: returned sequence == [f(x)] per call "
@@ -58,6 +58,10 @@ def gen_base(rng, tier, index):
             call["durations"] = {"mode": dm, "t": rng.choice([0.01, 0.03, 0.06]),
                                  "chunk": rng.choice([0, 0, nchunks - 1, nchunks // 2]), "phase": rng.randrange(2),
                                  "nchunks": nchunks}
+        if index % 4 == 1 and n:
+            # results larger than a pipe buffer (64 KiB): workers cannot finish before somebody reads
+            call["result_size"] = rng.choice([70_000, 200_000])
+            call["n"] = min(n, 8)
         calls.append(call)
     return {"kind": kind, "pool": kind, "workers": workers, "calls": calls}
 
